@@ -7,6 +7,8 @@ func Lookup(id string) sim.Property {
 	switch id {
 	case "C15":
 		return C15{}
+	case "C07":
+		return C07{}
 	}
 
 	return nil
